@@ -20,7 +20,13 @@ fn errname(e: YuvError) -> &'static str {
 
 /// Returns (accepted, error name) and reports violations of the geometry contract.
 fn check_spec<T: Pixel>(s: &FrameSpec, rng: &mut Rng, confusion: &mut std::collections::BTreeMap<(String, String), u64>) {
-    let frame: Frame<T> = frames::build(s, rng);
+    let mut frame: Frame<T> = frames::build(s, rng);
+    // the luma plane's own decimation fields are not part of the contract: a third of the frames carry the
+    // chroma decimation there too (callers that pass one decimation to every Plane::new)
+    if (s.w + s.h + s.pad.0 + s.cu.0) % 3 == 0 {
+        frame.planes[0].cfg.xdec = s.du.0.max(s.ss.0 as usize);
+        frame.planes[0].cfg.ydec = s.du.1.max(s.ss.1 as usize);
+    }
     let keep = frame.clone();
     let cfg = s.config();
     let m = s.model();
@@ -85,7 +91,23 @@ fn check_sample(s: &FrameSpec, pl: usize, pos: usize, rng: &mut Rng) -> Option<(
     let (y, x) = (pos / stride.max(1), pos % stride.max(1));
     let visible = y >= p.cfg.yorigin && y < p.cfg.yorigin + p.cfg.height && x >= p.cfg.xorigin && x < p.cfg.xorigin + p.cfg.width;
     let maxv = (1u32 << s.depth) - 1;
+    // deterministic context variants: every sample of the plane at the peak legal code, a few peak codes
+    // sprinkled before the bad sample, and/or decimation fields on the luma plane
+    let variant = (pos + 3 * pl + s.depth as usize + s.w) % 6;
+    if variant == 1 || variant == 4 {
+        for v in p.data.iter_mut() {
+            *v = maxv as u16;
+        }
+    } else if variant == 2 {
+        for k in 0..pos.min(3) {
+            p.data[(pos * (k + 1)) / 4] = maxv as u16;
+        }
+    }
     p.data[pos] = (maxv + 1 + rng.below((65535 - maxv) as u64) as u32) as u16;
+    if variant >= 3 {
+        f.planes[0].cfg.xdec = 1 + (pos % 2);
+        f.planes[0].cfg.ydec = 1 + (pl % 2);
+    }
     let r = ev::guarded(|| Yuv::new(f, s.config()));
     match r {
         Err(msg) => {
